@@ -11,10 +11,20 @@ package checks
 // back from the directory go-git wrote; no object may appear under any other
 // name. Reverse: written by `git hash-object -w --literally`; go-git must read
 // type, size, bytes and (recomputed) id under each read option set.
+//
+// Strengthened (see notes/C01-holes.md): repositories initialised by go-git
+// itself (PlainInit WithObjectFormat; Init + SetObjectFormat as clone does),
+// ExclusiveAccess on the writing side, memory storage, symlink blobs, a second
+// write of every object through another entry point (the "already exists"
+// short cut of ObjectWriter.save); reverse: objects reachable only through
+// objects/info/alternates, objects in a quarantine (tmp_objdir-incoming-*)
+// directory, objects git wrote with core.looseCompression=0, typed lookups on a
+// cold cache, and IterEncodedObjects.
 
 import (
 	"fmt"
 	"io"
+	"os"
 	"path/filepath"
 	"strings"
 	"sync"
@@ -22,9 +32,11 @@ import (
 	"github.com/go-git/go-billy/v6/osfs"
 	git "github.com/go-git/go-git/v6"
 	"github.com/go-git/go-git/v6/plumbing"
+	"github.com/go-git/go-git/v6/plumbing/cache"
 	formatcfg "github.com/go-git/go-git/v6/plumbing/format/config"
 	"github.com/go-git/go-git/v6/storage/filesystem"
 	"github.com/go-git/go-git/v6/storage/filesystem/dotgit"
+	"github.com/go-git/go-git/v6/storage/memory"
 
 	"verifmc/fw"
 )
@@ -37,6 +49,9 @@ type c01Content struct {
 	data []byte
 	feat string // empty | hdr | big | nul | text
 	path string // file holding data (input of git hash-object)
+	// special: look-alike, path-like or pattern-filled (not from the enumeration
+	// of all short strings)
+	special bool
 }
 
 func c01Pattern(n int) []byte {
@@ -75,16 +90,21 @@ func runC01(c *fw.Ctx) {
 	if c.Thorough() {
 		sizes = append(sizes, 65537, 1<<20+1)
 	}
-	lookalikes := []string{"blob 3\x00abc", "tree 0\x00", "commit 0\x00", "tag 0\x00", "blob 0\x00", "blob 3\x00ab"}
+	lookalikes := []string{"blob 3\x00abc", "tree 0\x00", "commit 0\x00", "tag 0\x00", "blob 0\x00", "blob 3\x00ab",
+		// path-like texts (symlink targets that a path "normalisation" would change)
+		"a/../b", "./a", "a//b", "a/", "/a"}
 	c.Bound("alphabet", []string{"NUL", "a", "LF", "SP", "0"})
 	c.Bound("max_len", maxLen)
 	c.Bound("pattern_sizes", sizes)
-	c.Bound("header_lookalikes", len(lookalikes))
+	c.Bound("header_lookalikes_and_pathlike_texts", len(lookalikes))
 	c.Bound("types", c01Types)
 	c.Bound("formats", []string{"sha1", "sha256"})
-	c.Bound("write_entries", []string{"SetEncodedObject", "RawObjectWriter", "LazyWriter", "Worktree.Add(blob)"})
+	c.Bound("write_entries", c01FwdEntries)
+	c.Bound("rewrite_pass", "entries set, raw: all contents written a second time through another entry point (object already exists); wtadd: contents of length <= 2 + look-alikes and pattern sizes added again under a second file name")
+	c.Bound("configuration_entries_contents", "set-excl, goinit, setfmt: contents of length <= 2 + all look-alikes and pattern sizes")
 	c.Bound("read_options", []string{"default", "LargeObjectThreshold=1", "ExclusiveAccess"})
-	c.SetRule("every content (all strings over the alphabet up to max_len + header look-alikes + one pattern-filled string per size) x 4 types x 2 formats; forward = go-git writes via each entry point, id compared with `git hash-object --literally`, then `git cat-file --batch` reads type/size/bytes from the directory go-git wrote and the object count must equal the number of distinct expected ids; reverse = `git hash-object -w --literally` writes, go-git reads EncodedObject/EncodedObjectSize/HasEncodedObject under each read option and the id is recomputed from the bytes read; an evaluation is one (direction, format, entry|option, type, content); a class is (direction, format, entry|option, type, content feature in {empty,hdr,big,nul,text}) and every class is non-trivial (real bytes go through zlib + hashing)")
+	c.Bound("read_sources", []string{"repository objects", "objects/info/alternates", "objects/tmp_objdir-incoming-*", "git core.looseCompression=0"})
+	c.SetRule("every content (all strings over the alphabet up to max_len + header look-alikes + path-like texts + one pattern-filled string per size) x 4 types x 2 formats; forward = go-git writes via each entry point (git-initialised repository: SetEncodedObject, RawObjectWriter, LazyWriter, Worktree.Add of files and of symlinks, SetEncodedObject under ExclusiveAccess; go-git-initialised repository: PlainInit WithObjectFormat, Init+SetObjectFormat; memory storage), id compared with `git hash-object --literally`, then `git cat-file --batch` reads type/size/bytes from the directory go-git wrote and the object count must equal the number of distinct expected ids; then everything is written a second time through another entry point and re-verified; reverse = `git hash-object -w --literally` writes, go-git reads EncodedObject/EncodedObjectSize/HasEncodedObject/IterEncodedObjects under each read option and source and the id is recomputed from the bytes read; an evaluation is one (direction, format, entry|option, type, content); a class is (direction, format, entry|option, type, content feature in {empty,hdr,big,nul,text}) and every class is non-trivial (real bytes go through zlib + hashing)")
 	c.Assume("git 2.39.5 hash-object --literally / cat-file --batch are the reference for ids and loose-object reading")
 	c.Assume("SetEncodedObject is driven with objects from the storer's own NewEncodedObject (as go-git's porcelain does)")
 
@@ -101,9 +121,11 @@ func runC01(c *fw.Ctx) {
 	}
 	for _, s := range lookalikes {
 		add([]byte(s))
+		cs[len(cs)-1].special = true
 	}
 	for _, n := range sizes {
 		add(c01Pattern(n))
+		cs[len(cs)-1].special = true
 	}
 	c.Bound("contents", len(cs))
 	paths := make([]string, len(cs))
@@ -115,9 +137,12 @@ func runC01(c *fw.Ctx) {
 	formats := []string{"sha1", "sha256"}
 	oracle := map[string]map[string][]string{} // fmt -> type -> ids
 	gitRepo := map[string]string{}
+	gitRepo0 := map[string]string{} // written with core.looseCompression=0
 	gits := map[string]*fw.Git{}
+	gits0 := map[string]*fw.Git{}
 	for _, f := range formats {
 		gits[f], gitRepo[f] = c.InitRepo("c01-git-"+f, f, true)
+		gits0[f], gitRepo0[f] = c.InitRepo("c01-git0-"+f, f, true)
 		oracle[f] = map[string][]string{}
 		for _, t := range c01Types {
 			oracle[f][t] = nil
@@ -134,6 +159,12 @@ func runC01(c *fw.Ctx) {
 		if len(ids[0]) != wantLen {
 			fw.Abort("oracle id length %d for %s", len(ids[0]), f)
 		}
+		ids0 := aHashObjectPaths(gits0[f].C("core.looseCompression=0"), t, paths, true)
+		for k := range ids {
+			if ids[k] != ids0[k] {
+				fw.Abort("git gives two ids for one object (%s, %s)", ids[k], ids0[k])
+			}
+		}
 		omu.Lock()
 		oracle[f][t] = ids
 		omu.Unlock()
@@ -146,31 +177,83 @@ func runC01(c *fw.Ctx) {
 			}
 		}
 	}
+	nTail := len(sizes) + len(lookalikes)
 	c.Sample(map[string]any{"content": "", "type": "blob", "sha1": oracle["sha1"]["blob"][0], "sha256": oracle["sha256"]["blob"][0]})
-	c.Sample(map[string]any{"content": fw.Q(string(cs[len(cs)-len(sizes)-len(lookalikes)].data)), "type": "tree", "sha1": oracle["sha1"]["tree"][len(cs)-len(sizes)-len(lookalikes)]})
+	c.Sample(map[string]any{"content": fw.Q(string(cs[len(cs)-nTail].data)), "type": "tree", "sha1": oracle["sha1"]["tree"][len(cs)-nTail]})
+
+	// ---- other places a reader finds git-written loose objects
+	altRepo := map[string]string{}
+	incRepo := map[string]string{}
+	for _, f := range formats {
+		_, altRepo[f] = c.InitRepo("c01-alt-"+f, f, true)
+		aMustWrite(filepath.Join(altRepo[f], "objects", "info", "alternates"), []byte(filepath.Join(gitRepo[f], "objects")+"\n"))
+		_, incRepo[f] = c.InitRepo("c01-inc-"+f, f, true)
+		c01CopyLoose(filepath.Join(gitRepo[f], "objects"), filepath.Join(incRepo[f], "objects", "tmp_objdir-incoming-c01x"))
+	}
 
 	type job struct {
-		fwd   bool
+		kind  string // fwd | rev
 		f     string
-		entry string // forward: entry point; reverse: read option
+		entry string // forward: entry point; reverse: read option / source
+		dir   string
 	}
 	var jobs []job
 	for _, f := range formats {
-		for _, e := range []string{"set", "raw", "lazy", "wtadd"} {
-			jobs = append(jobs, job{true, f, e})
+		for _, e := range c01FwdEntries {
+			jobs = append(jobs, job{"fwd", f, e, ""})
 		}
 		for _, o := range []string{"default", "large1", "exclusive"} {
-			jobs = append(jobs, job{false, f, o})
+			jobs = append(jobs, job{"rev", f, o, gitRepo[f]})
 		}
+		jobs = append(jobs, job{"rev", f, "alternate", altRepo[f]}, job{"rev", f, "incoming", incRepo[f]}, job{"rev", f, "level0", gitRepo0[f]})
 	}
 	c.ParDo(len(jobs), 0, func(i int) {
 		j := jobs[i]
-		if j.fwd {
+		switch j.kind {
+		case "fwd":
 			c01Forward(c, j.f, j.entry, cs, oracle[j.f])
-		} else {
-			c01Reverse(c, j.f, j.entry, gitRepo[j.f], cs, oracle[j.f])
+		case "rev":
+			c01Reverse(c, j.f, j.entry, j.dir, cs, oracle[j.f])
 		}
 	})
+}
+
+var c01FwdEntries = []string{"set", "raw", "lazy", "wtadd", "wtlink", "set-excl", "goinit", "setfmt", "mem", "mem-raw", "mem-setfmt"}
+
+// the entry point used for the second write of every content
+var c01Rewrite = map[string]string{"set": "raw", "raw": "lazy", "wtadd": "wtadd"}
+
+// entries that vary the repository configuration rather than the writer run
+// on the contents of length <= 2 plus all look-alikes and pattern sizes
+var c01SmallEntries = map[string]bool{"set-excl": true, "goinit": true, "setfmt": true}
+
+// c01CopyLoose copies the xx/ fan-out directories of a loose object store.
+func c01CopyLoose(from, to string) {
+	ents, err := os.ReadDir(from)
+	if err != nil {
+		fw.Abort("read %s: %v", from, err)
+	}
+	for _, e := range ents {
+		if !e.IsDir() || len(e.Name()) != 2 {
+			continue
+		}
+		if err := os.MkdirAll(filepath.Join(to, e.Name()), 0o755); err != nil {
+			fw.Abort("mkdir: %v", err)
+		}
+		fs, err := os.ReadDir(filepath.Join(from, e.Name()))
+		if err != nil {
+			fw.Abort("read: %v", err)
+		}
+		for _, o := range fs {
+			b, err := os.ReadFile(filepath.Join(from, e.Name(), o.Name()))
+			if err != nil {
+				fw.Abort("read: %v", err)
+			}
+			if err := os.WriteFile(filepath.Join(to, e.Name(), o.Name()), b, 0o444); err != nil {
+				fw.Abort("write: %v", err)
+			}
+		}
+	}
 }
 
 func c01FormatOf(f string) formatcfg.ObjectFormat {
@@ -180,150 +263,333 @@ func c01FormatOf(f string) formatcfg.ObjectFormat {
 	return formatcfg.SHA1
 }
 
+// c01LinkTarget: can the content be the target of a symbolic link?
+func c01LinkTarget(b []byte) bool {
+	return len(b) > 0 && len(b) < 200 && strings.IndexByte(string(b), 0) < 0
+}
+
+// c01ObjStore is what the forward direction needs from a go-git storage.
+type c01ObjStore interface {
+	NewEncodedObject() plumbing.EncodedObject
+	SetEncodedObject(plumbing.EncodedObject) (plumbing.Hash, error)
+	RawObjectWriter(plumbing.ObjectType, int64) (io.WriteCloser, error)
+	EncodedObject(plumbing.ObjectType, plumbing.Hash) (plumbing.EncodedObject, error)
+}
+
 func c01Forward(c *fw.Ctx, f, entry string, cs []c01Content, oracle map[string][]string) {
-	bare := entry != "wtadd"
-	g, dir := c.InitRepo("c01-"+f+"-"+entry, f, bare)
-	st := aOpenStorage(aDotGit(dir, bare), filesystem.Options{})
-	defer st.Close()
-	var wt *git.Worktree
-	if entry == "wtadd" {
-		repo, err := git.Open(st, osfs.New(dir))
-		c.Must(err, "git.Open on a git-initialised repository")
-		wt, err = repo.Worktree()
-		c.Must(err, "Worktree()")
+	fail := func(label, kind, t string, k int, got, want string) {
+		key := fmt.Sprintf("forward/%s/%s/%s: %s", label, f, t, kind)
+		aFail(c, key, fmt.Sprintf("%s writing a %s of %d bytes via %s in a %s repository: got %s, want %s", kind, t, len(cs[k].data), label, f, got, want),
+			map[string]any{"format": f, "entry": label, "type": t, "content": aShort(cs[k].data), "size": len(cs[k].data), "got": got, "want": want})
 	}
-	fail := func(kind, t string, k int, got, want string) {
-		key := fmt.Sprintf("forward/%s/%s/%s: %s", entry, f, t, kind)
-		c.Fail(key, fmt.Sprintf("%s writing a %s of %d bytes via %s in a %s repository: got %s, want %s", kind, t, len(cs[k].data), entry, f, got, want),
-			map[string]any{"format": f, "entry": entry, "type": t, "content": aShort(cs[k].data), "size": len(cs[k].data), "got": got, "want": want})
+	setupFail := func(what string, err any) {
+		aFail(c, fmt.Sprintf("forward/%s/%s: %s", entry, f, what), fmt.Sprintf("%s (%s repository, entry %s): %v", what, f, entry, err), map[string]any{"format": f, "entry": entry})
 	}
-	types := c01Types
-	if entry == "wtadd" {
-		types = []string{"blob"}
-	}
-	expected := map[string]bool{}
-	for _, t := range types {
-		ot := aTypeOf(t)
-		for k := range cs {
-			if c.Expired() {
-				c.Incomplete("deadline in forward " + f + "/" + entry)
+	var (
+		g    *fw.Git
+		dir  string
+		st   c01ObjStore
+		fst  *filesystem.Storage
+		wt   *git.Worktree
+		onFS = true
+	)
+	isWT := entry == "wtadd" || entry == "wtlink"
+	var perr string
+	switch entry {
+	case "goinit":
+		dir = c.TempDir("c01-" + f + "-" + entry)
+		g = c.GitHome().In(dir)
+		perr = aGuard(func() {
+			r, err := git.PlainInit(dir, true, git.WithObjectFormat(c01FormatOf(f)))
+			if err != nil {
+				setupFail("PlainInit WithObjectFormat fails", err)
 				return
 			}
-			data := cs[k].data
-			want := oracle[t][k]
-			expected[want] = true
-			var got string
-			var err error
-			p := aGuard(func() {
-				switch entry {
-				case "set":
-					o := st.NewEncodedObject()
-					o.SetType(ot)
-					w, e := o.Writer()
-					if e != nil {
-						err = e
-						return
-					}
-					if _, e = w.Write(data); e != nil {
-						err = e
-						return
-					}
-					w.Close()
-					h, e := st.SetEncodedObject(o)
+			fst, _ = r.Storer.(*filesystem.Storage)
+		})
+	case "setfmt":
+		dir = c.TempDir("c01-" + f + "-" + entry)
+		g = c.GitHome().In(dir)
+		perr = aGuard(func() {
+			s := filesystem.NewStorageWithOptions(osfs.New(dir), cache.NewObjectLRUDefault(), filesystem.Options{})
+			if _, err := git.Init(s); err != nil {
+				setupFail("Init fails", err)
+				return
+			}
+			if err := s.SetObjectFormat(c01FormatOf(f)); err != nil {
+				setupFail("SetObjectFormat fails on an empty repository", err)
+				return
+			}
+			fst = s
+		})
+	case "mem", "mem-raw":
+		onFS = false
+		st = memory.NewStorage(memory.WithObjectFormat(c01FormatOf(f)))
+	case "mem-setfmt":
+		onFS = false
+		m := memory.NewStorage()
+		if err := m.SetObjectFormat(c01FormatOf(f)); err != nil {
+			setupFail("memory SetObjectFormat fails on an empty storage", err)
+			return
+		}
+		st = m
+	default:
+		g, dir = c.InitRepo("c01-"+f+"-"+entry, f, !isWT)
+		o := filesystem.Options{}
+		if entry == "set-excl" {
+			o.ExclusiveAccess = true
+		}
+		fst = aOpenStorage(aDotGit(dir, !isWT), o)
+		if isWT {
+			repo, err := git.Open(fst, osfs.New(dir))
+			c.Must(err, "git.Open on a git-initialised repository")
+			wt, err = repo.Worktree()
+			c.Must(err, "Worktree()")
+		}
+	}
+	if perr != "" {
+		setupFail("panic while creating the repository", perr)
+		return
+	}
+	if onFS {
+		if fst == nil {
+			return // reported above
+		}
+		defer fst.Close()
+		st = fst
+		if r := g.Run("rev-parse", "--git-dir"); !r.OK() {
+			setupFail("git cannot open the repository go-git initialised", strings.TrimSpace(string(r.Err)))
+			return
+		}
+		if got := strings.TrimSpace(string(g.Run("rev-parse", "--show-object-format").Out)); got != f {
+			setupFail("git sees another object format in the repository go-git initialised", got)
+			return
+		}
+	}
+
+	// write one content through one entry point
+	write := func(how, t string, k int, nth int) (got string, err error, p string) {
+		ot := aTypeOf(t)
+		data := cs[k].data
+		p = aGuard(func() {
+			switch how {
+			case "set", "set-excl", "goinit", "setfmt", "mem", "mem-setfmt":
+				o := st.NewEncodedObject()
+				o.SetType(ot)
+				w, e := o.Writer()
+				if e != nil {
 					err = e
-					got = h.String()
-				case "raw":
-					w, e := st.RawObjectWriter(ot, int64(len(data)))
-					if e != nil {
-						err = e
-						return
-					}
-					if _, e = w.Write(data); e != nil {
-						err = e
-						return
-					}
-					if e = w.Close(); e != nil {
-						err = e
-						return
-					}
-					got = w.(*dotgit.ObjectWriter).Hash().String()
-				case "lazy":
-					w, wh, e := st.LazyWriter()
-					if e != nil {
-						err = e
-						return
-					}
-					if e = wh(ot, int64(len(data))); e != nil {
-						err = e
-						return
-					}
-					chunk := 1
-					if len(data) > 8 {
-						chunk = 4099
-					}
-					for off := 0; off < len(data); off += chunk {
-						end := min(off+chunk, len(data))
-						if _, e = w.Write(data[off:end]); e != nil {
-							err = e
-							return
+					return
+				}
+				if _, e = w.Write(data); e != nil {
+					err = e
+					return
+				}
+				w.Close()
+				h, e := st.SetEncodedObject(o)
+				err = e
+				got = h.String()
+			case "raw", "mem-raw":
+				w, e := st.RawObjectWriter(ot, int64(len(data)))
+				if e != nil {
+					err = e
+					return
+				}
+				if _, e = w.Write(data); e != nil {
+					err = e
+					return
+				}
+				if e = w.Close(); e != nil {
+					err = e
+					return
+				}
+				if ow, ok := w.(*dotgit.ObjectWriter); ok {
+					got = ow.Hash().String()
+				} else {
+					// memory storage: the writer does not tell the id; the
+					// object must be found under git's id
+					got = "(not stored under " + oracle[t][k] + ")"
+					if h, ok := plumbing.FromHex(oracle[t][k]); ok {
+						if o, e := st.EncodedObject(plumbing.AnyObject, h); e == nil {
+							got = o.Hash().String()
 						}
 					}
-					if e = w.Close(); e != nil {
+				}
+			case "lazy":
+				w, wh, e := fst.LazyWriter()
+				if e != nil {
+					err = e
+					return
+				}
+				if e = wh(ot, int64(len(data))); e != nil {
+					err = e
+					return
+				}
+				chunk := 1
+				if len(data) > 8 {
+					chunk = 4099
+				}
+				for off := 0; off < len(data); off += chunk {
+					end := min(off+chunk, len(data))
+					if _, e = w.Write(data[off:end]); e != nil {
 						err = e
 						return
 					}
-					got = w.(*dotgit.ObjectWriter).Hash().String()
-				case "wtadd":
-					name := fmt.Sprintf("w%05d", k)
-					aMustWrite(filepath.Join(dir, name), data)
-					h, e := wt.Add(name)
-					err = e
-					got = h.String()
 				}
-			})
-			c.Eval()
-			c.Class("fwd/" + f + "/" + entry + "/" + t + "/" + cs[k].feat)
-			switch {
-			case p != "":
-				fail("panic", t, k, p, want)
-			case err != nil:
-				fail("write error", t, k, err.Error(), want)
-			case got != want:
-				fail("object id differs from git's", t, k, got, want)
+				if e = w.Close(); e != nil {
+					err = e
+					return
+				}
+				got = w.(*dotgit.ObjectWriter).Hash().String()
+			case "wtadd":
+				name := fmt.Sprintf("w%d-%05d", nth, k)
+				mode := os.FileMode(0o644)
+				if k%2 == 1 {
+					mode = 0o755
+				}
+				if e := os.WriteFile(filepath.Join(dir, name), data, mode); e != nil {
+					fw.Abort("write: %v", e)
+				}
+				h, e := wt.Add(name)
+				err = e
+				got = h.String()
+			case "wtlink":
+				name := fmt.Sprintf("l%d-%05d", nth, k)
+				if e := os.Symlink(string(data), filepath.Join(dir, name)); e != nil {
+					fw.Abort("symlink: %v", e)
+				}
+				h, e := wt.Add(name)
+				err = e
+				got = h.String()
+			}
+		})
+		return
+	}
+	types := c01Types
+	if isWT {
+		types = []string{"blob"}
+	}
+	eligible := func(k int) bool {
+		if c01SmallEntries[entry] && len(cs[k].data) > 2 && !cs[k].special {
+			return false
+		}
+		return entry != "wtlink" || c01LinkTarget(cs[k].data)
+	}
+	expected := map[string]bool{}
+	pass := func(how, label string, nth int) bool {
+		for _, t := range types {
+			for k := range cs {
+				if !eligible(k) {
+					continue
+				}
+				if how == "wtadd" && nth == 1 && len(cs[k].data) > 2 && !cs[k].special {
+					continue // duplicate content under a second name: the small contents
+				}
+				if c.Expired() {
+					c.Incomplete("deadline in forward " + f + "/" + label)
+					return false
+				}
+				want := oracle[t][k]
+				expected[want] = true
+				got, err, p := write(how, t, k, nth)
+				c.Eval()
+				c.Class("fwd/" + f + "/" + label + "/" + t + "/" + cs[k].feat)
+				switch {
+				case p != "":
+					fail(label, "panic", t, k, p, want)
+				case err != nil:
+					fail(label, "write error", t, k, err.Error(), want)
+				case got != want:
+					fail(label, "object id differs from git's", t, k, got, want)
+				}
+				if !onFS {
+					// memory storage: what was stored must read back under git's id
+					h, _ := plumbing.FromHex(want)
+					p := aGuard(func() {
+						o, e := st.EncodedObject(plumbing.AnyObject, h)
+						if e != nil {
+							fail(label, "object not found under git's id", t, k, e.Error(), want)
+							return
+						}
+						rd, e := o.Reader()
+						if e != nil {
+							fail(label, "Reader error", t, k, e.Error(), "reader")
+							return
+						}
+						b, _ := io.ReadAll(rd)
+						rd.Close()
+						if o.Type() != aTypeOf(t) || !aEq(b, cs[k].data) {
+							fail(label, "stored object reads back differently", t, k, o.Type().String()+" "+aShort(b), t+" "+aShort(cs[k].data))
+						}
+					})
+					if p != "" {
+						fail(label, "panic", t, k, p, want)
+					}
+				}
 			}
 		}
+		return true
 	}
 	// git reads what go-git wrote.
-	for _, t := range types {
-		infos := g.CatFileBatch(oracle[t])
-		for k, in := range infos {
-			switch {
-			case in.Missing:
-				fail("git cannot find the loose object go-git wrote", t, k, "missing", oracle[t][k])
-			case in.Type != t:
-				fail("git reads another type", t, k, in.Type, t)
-			case in.Size != len(cs[k].data):
-				fail("git reads another size", t, k, fmt.Sprint(in.Size), fmt.Sprint(len(cs[k].data)))
-			case !aEq(in.Data, cs[k].data):
-				fail("git reads other bytes", t, k, aShort(in.Data), aShort(cs[k].data))
+	verify := func(label string) {
+		for _, t := range types {
+			var ids []string
+			var ks []int
+			for k := range cs {
+				if eligible(k) {
+					ids = append(ids, oracle[t][k])
+					ks = append(ks, k)
+				}
+			}
+			infos := g.CatFileBatch(ids)
+			for i, in := range infos {
+				k := ks[i]
+				switch {
+				case in.Missing:
+					fail(label, "git cannot find the loose object go-git wrote", t, k, "missing", oracle[t][k])
+				case in.Type != t:
+					fail(label, "git reads another type", t, k, in.Type, t)
+				case in.Size != len(cs[k].data):
+					fail(label, "git reads another size", t, k, fmt.Sprint(in.Size), fmt.Sprint(len(cs[k].data)))
+				case !aEq(in.Data, cs[k].data):
+					fail(label, "git reads other bytes", t, k, aShort(in.Data), aShort(cs[k].data))
+				}
+			}
+		}
+		all := strings.Fields(string(g.MustRun("cat-file", "--batch-all-objects", "--batch-check=%(objectname)", "--unordered").Out))
+		for _, id := range all {
+			if !expected[id] {
+				aFail(c, fmt.Sprintf("forward/%s/%s: stray object", label, f), "go-git stored an object under a name git did not compute for any input: "+id,
+					map[string]any{"format": f, "entry": label, "id": id})
+			}
+		}
+		r := g.Run("fsck", "--no-dangling")
+		for _, l := range strings.Split(string(r.Err)+string(r.Out), "\n") {
+			// content is arbitrary, so fsck complains about malformed trees/commits;
+			// only storage-level complaints matter here.
+			if strings.Contains(l, "hash mismatch") || strings.Contains(l, "hash-path mismatch") || strings.Contains(l, "corrupt") || strings.Contains(l, "garbage") || strings.Contains(l, "unable to unpack") {
+				aFail(c, fmt.Sprintf("forward/%s/%s: fsck storage complaint", label, f), "git fsck: "+l, map[string]any{"format": f, "entry": label, "line": l})
 			}
 		}
 	}
-	all := strings.Fields(string(g.MustRun("cat-file", "--batch-all-objects", "--batch-check=%(objectname)", "--unordered").Out))
-	for _, id := range all {
-		if !expected[id] {
-			c.Fail(fmt.Sprintf("forward/%s/%s: stray object", entry, f), "go-git stored an object under a name git did not compute for any input: "+id,
-				map[string]any{"format": f, "entry": entry, "id": id})
-		}
+	if !pass(entry, entry, 0) {
+		return
 	}
-	r := g.Run("fsck", "--no-dangling")
-	for _, l := range strings.Split(string(r.Err)+string(r.Out), "\n") {
-		// content is arbitrary, so fsck complains about malformed trees/commits;
-		// only storage-level complaints matter here.
-		if strings.Contains(l, "hash mismatch") || strings.Contains(l, "hash-path mismatch") || strings.Contains(l, "corrupt") || strings.Contains(l, "garbage") || strings.Contains(l, "unable to unpack") {
-			c.Fail(fmt.Sprintf("forward/%s/%s: fsck storage complaint", entry, f), "git fsck: "+l, map[string]any{"format": f, "entry": entry, "line": l})
-		}
+	if !onFS {
+		return
 	}
+	verify(entry)
+	// second write of every content (the object already exists), through
+	// another entry point; everything must still be as git expects
+	re, ok := c01Rewrite[entry]
+	if !ok {
+		return
+	}
+	label := entry + "+again-" + re
+	if !pass(re, label, 1) {
+		return
+	}
+	verify(label)
 }
 
 func c01Reverse(c *fw.Ctx, f, opt, gitDir string, cs []c01Content, oracle map[string][]string) {
@@ -333,14 +599,51 @@ func c01Reverse(c *fw.Ctx, f, opt, gitDir string, cs []c01Content, oracle map[st
 		o.LargeObjectThreshold = 1
 	case "exclusive":
 		o.ExclusiveAccess = true
+	case "alternate":
+		o.AlternatesFS = osfs.New("/") // the alternates file holds an absolute path
 	}
 	st := aOpenStorage(gitDir, o)
 	defer st.Close()
 	oh := plumbing.FromObjectFormat(c01FormatOf(f))
 	fail := func(kind, t string, k int, got, want string) {
 		key := fmt.Sprintf("reverse/%s/%s/%s: %s", opt, f, t, kind)
-		c.Fail(key, fmt.Sprintf("%s reading a git-written %s of %d bytes with options %s in a %s repository: got %s, want %s", kind, t, len(cs[k].data), opt, f, got, want),
+		aFail(c, key, fmt.Sprintf("%s reading a git-written %s of %d bytes with options %s in a %s repository: got %s, want %s", kind, t, len(cs[k].data), opt, f, got, want),
 			map[string]any{"format": f, "read_option": opt, "type": t, "content": aShort(cs[k].data), "size": len(cs[k].data), "id": oracle[t][k], "got": got, "want": want})
+	}
+	byID := map[string][2]int{} // id -> (type index, k)
+	for ti, t := range c01Types {
+		for k := range cs {
+			byID[oracle[t][k]] = [2]int{ti, k}
+		}
+	}
+	checkObj := func(obj plumbing.EncodedObject, t string, k int, id string) {
+		if obj.Type() != aTypeOf(t) {
+			fail("wrong type", t, k, obj.Type().String(), t)
+		}
+		if obj.Size() != int64(len(cs[k].data)) {
+			fail("wrong size", t, k, fmt.Sprint(obj.Size()), fmt.Sprint(len(cs[k].data)))
+		}
+		rd, err := obj.Reader()
+		if err != nil {
+			fail("Reader error", t, k, err.Error(), "reader")
+			return
+		}
+		b, err := io.ReadAll(rd)
+		rd.Close()
+		if err != nil {
+			fail("read error", t, k, err.Error(), "bytes")
+			return
+		}
+		if !aEq(b, cs[k].data) {
+			fail("wrong bytes", t, k, aShort(b), aShort(cs[k].data))
+		}
+		if obj.Hash().String() != id {
+			fail("wrong id on the object read", t, k, obj.Hash().String(), id)
+		}
+		re, err := oh.Compute(obj.Type(), b)
+		if err != nil || re.String() != id {
+			fail("id recomputed from what was read differs", t, k, re.String(), id)
+		}
 	}
 	for _, t := range c01Types {
 		ot := aTypeOf(t)
@@ -360,44 +663,30 @@ func c01Reverse(c *fw.Ctx, f, opt, gitDir string, cs []c01Content, oracle map[st
 			}
 			c.Eval()
 			c.Class("rev/" + f + "/" + opt + "/" + t + "/" + cs[k].feat)
+			typed := func() {
+				if _, err := st.EncodedObject(other, h); err == nil {
+					fail("EncodedObject(other type) succeeds", t, k, "object", "ErrObjectNotFound")
+				}
+				obj, err := st.EncodedObject(ot, h)
+				if err != nil {
+					fail("EncodedObject(exact type) error", t, k, err.Error(), "object")
+					return
+				}
+				checkObj(obj, t, k, id)
+			}
 			p := aGuard(func() {
+				// odd contents: the typed lookups come first (cold cache)
+				if k%2 == 1 {
+					typed()
+				}
 				obj, err := st.EncodedObject(plumbing.AnyObject, h)
 				if err != nil {
 					fail("EncodedObject error", t, k, err.Error(), "object")
 					return
 				}
-				if obj.Type() != ot {
-					fail("wrong type", t, k, obj.Type().String(), t)
-				}
-				if obj.Size() != int64(len(cs[k].data)) {
-					fail("wrong size", t, k, fmt.Sprint(obj.Size()), fmt.Sprint(len(cs[k].data)))
-				}
-				rd, err := obj.Reader()
-				if err != nil {
-					fail("Reader error", t, k, err.Error(), "reader")
-					return
-				}
-				b, err := io.ReadAll(rd)
-				rd.Close()
-				if err != nil {
-					fail("read error", t, k, err.Error(), "bytes")
-					return
-				}
-				if !aEq(b, cs[k].data) {
-					fail("wrong bytes", t, k, aShort(b), aShort(cs[k].data))
-				}
-				if obj.Hash().String() != id {
-					fail("wrong id on the object read", t, k, obj.Hash().String(), id)
-				}
-				re, err := oh.Compute(obj.Type(), b)
-				if err != nil || re.String() != id {
-					fail("id recomputed from what was read differs", t, k, re.String(), id)
-				}
-				if _, err := st.EncodedObject(ot, h); err != nil {
-					fail("EncodedObject(exact type) error", t, k, err.Error(), "object")
-				}
-				if _, err := st.EncodedObject(other, h); err == nil {
-					fail("EncodedObject(other type) succeeds", t, k, "object", "ErrObjectNotFound")
+				checkObj(obj, t, k, id)
+				if k%2 == 0 {
+					typed()
 				}
 				sz, err := st.EncodedObjectSize(h)
 				if err != nil || sz != int64(len(cs[k].data)) {
@@ -409,6 +698,57 @@ func c01Reverse(c *fw.Ctx, f, opt, gitDir string, cs []c01Content, oracle map[st
 			})
 			if p != "" {
 				fail("panic", t, k, p, "no panic")
+			}
+		}
+	}
+	if opt == "alternate" || opt == "incoming" {
+		return // the iterator lists the repository's own object directory only
+	}
+	// IterEncodedObjects: every git-written object, once, with its content.
+	for ti, it := range append([]string{"any"}, c01Types...) {
+		want := map[string]bool{}
+		for t2i, t := range c01Types {
+			if it == "any" || ti-1 == t2i {
+				for k := range cs {
+					want[oracle[t][k]] = true
+				}
+			}
+		}
+		ot := plumbing.AnyObject
+		if it != "any" {
+			ot = aTypeOf(it)
+		}
+		seen := map[string]int{}
+		var iterErr error
+		p := aGuard(func() {
+			iter, err := st.IterEncodedObjects(ot)
+			if err != nil {
+				iterErr = err
+				return
+			}
+			iterErr = iter.ForEach(func(obj plumbing.EncodedObject) error {
+				id := obj.Hash().String()
+				seen[id]++
+				c.Eval()
+				tk, ok := byID[id]
+				if !ok || !want[id] {
+					aFail(c, fmt.Sprintf("reverse/%s/%s: IterEncodedObjects(%s) yields an object git did not write", opt, f, it), "id "+id+" type "+obj.Type().String(),
+						map[string]any{"format": f, "read_option": opt, "iter": it, "id": id})
+					return nil
+				}
+				c.Class("rev/" + f + "/" + opt + "/iter-" + it + "/" + cs[tk[1]].feat)
+				checkObj(obj, c01Types[tk[0]], tk[1], id)
+				return nil
+			})
+		})
+		if p != "" || iterErr != nil {
+			aFail(c, fmt.Sprintf("reverse/%s/%s: IterEncodedObjects(%s) fails", opt, f, it), fmt.Sprintf("%v %s", iterErr, p), map[string]any{"format": f, "read_option": opt, "iter": it})
+			continue
+		}
+		for id := range want {
+			if seen[id] != 1 {
+				tk := byID[id]
+				fail(fmt.Sprintf("IterEncodedObjects(%s) yields the object %d times", it, seen[id]), c01Types[tk[0]], tk[1], fmt.Sprint(seen[id]), "1")
 			}
 		}
 	}
